@@ -191,6 +191,33 @@ def run(ctx):
             else:
                 ctx.traces += 1
             if size in (0, 777) and ci_ok(job): ctx.sample({'case': case, 'gen_partition': g[:30]}, cap=4)
+        # 2b. files larger than any read buffer one might introduce (1 MiB and its multiples): implementation-only predicate (generation
+        # = correction partition, exact tiling, published rule); the Coq model is not evaluated on these sizes (vm_compute cost)
+        for (size, mb, hdr, rt, hlen) in [(1048576 + 300, 255, 1024, (0.1, 0.1, 0.1), 8), (2 * 1048576 + 77, 255, 4096, (0.3, 0.2, 0.2), 32),
+                                          (1048576, 200, 100, (0.25, 0.25, 0.25), 4)]:
+            try:
+                g, c = impl_whole(size, mb, hdr, list(rt), hlen)
+            except Exception as e:
+                g, c = ['EXC', repr(e)], None
+            ctx.evaluations += 1
+            ctx.count('large_file_cases')
+            ctx.nontriv(('whole-large', size, mb))
+            case = {'kind': 'whole-large', 'size': size, 'mb': mb, 'hdr': hdr, 'rates': [float(r).hex() for r in rt], 'hlen': hlen}
+            bad = None
+            if c is None: bad = 'exception'
+            elif g != c: bad = 'generation and correction partitions differ'
+            else:
+                off = 0
+                for i in range(0, len(g), 3):
+                    if g[i] != off or g[i + 1] < 1: bad = 'gap/overlap at block %d (offset %d)' % (i // 3, off); break
+                    off += g[i + 1]
+                if bad is None and off != size: bad = 'blocks cover %d of %d protected bytes' % (off, size)
+                if bad is None: bad = rule_violation('whole', g, size, mb, hdr, rt)
+            if bad:
+                first = next((i // 3 for i in range(0, min(len(g), len(c or [])), 3) if g[i:i + 3] != (c or [])[i:i + 3]), None)
+                ctx.fail(case, {'problem': bad, 'first_differing_block': first, 'blocks': [len(g) // 3, len(c or []) // 3]})
+            else:
+                ctx.traces += 1
         # 3. real codec + hasher: stored track = concat(hash + parity) of the model's blocks
         real_track(ctx, rng, 6 if ctx.tier == 'quick' else 40)
     finally:
@@ -295,6 +322,12 @@ def replay_case(ctx, case):
         want = rule_ms(case['mb'], Fraction(r))
         return {'holds': 1 <= ip['message_size'] <= case['mb'] and (want is None or ip['message_size'] == want), 'implementation': ip, 'model': m, 'published_rule': want}
     rt = [float.fromhex(x) for x in case['rates']]
+    if case['kind'] == 'whole-large':
+        g, c = impl_whole(case['size'], case['mb'], case['hdr'], list(rt), case['hlen'])
+        bad = None if g == c else 'generation and correction partitions differ'
+        if bad is None:
+            bad = rule_violation('whole', g, case['size'], case['mb'], case['hdr'], rt)
+        return {'holds': bad is None, 'implementation': {'problem': bad, 'blocks': [len(g) // 3, len(c) // 3]}}
     d = tempfile.mkdtemp(prefix='pffc10r')
     try:
         if case['kind'] == 'whole':
